@@ -29,14 +29,15 @@ type c16Case struct {
 	Challenge string `json:"challenge"`
 	Password  int    `json:"password_index"`
 	Aux       int    `json:"aux_config"`
-	Callback  int    `json:"callback"` // 0 registered, 1 nil, 2 error for the main address
+	Callback  int    `json:"callback"`             // 0 registered, 1 nil, 2 error for the main address
+	Order     int    `json:"line_order,omitempty"` // 0: SID, ;PQ, prompt; 1: ;PQ, SID, prompt; 2: SID, ;PQ, SID, prompt; 3: SID, comment, ;PQ, comment, prompt
 }
 
 var c16Passwords = []string{"FOOBAR", "p~w", "Z", "0123456789abcdefghijABCDEFGHIJ!#$%&()*+", "pÆssørd", "my pass word",
 	// any bytes without CR: white space at either end belongs to the password
 	"FooBar ", " lead", "tab\t", "\nnl", "\u00a0nbsp\u0085", " ", "\v\f"}
 
-// aux configurations: list of (address, kind) with kind 0 = password known, 1 = unknown (empty), 2 = callback error, 3 = known and consisting of one space
+// aux configurations: list of (address, kind) with kind 0 = password known, 1 = unknown (empty), 2 = callback error, 3 = known and consisting of one space, 4 = the own call
 type c16Aux struct {
 	Addr string
 	Kind int
@@ -48,6 +49,8 @@ var c16AuxCfgs = [][]c16Aux{
 	{{"AUX1", 0}, {"AUX2-5", 0}}, {{"AUX1", 0}, {"AUX2-5", 1}}, {{"AUX1", 1}, {"AUX2-5", 0}}, {{"AUX1", 0}, {"AUX2-5", 2}}, {{"AUX1", 2}, {"AUX2-5", 0}}, {{"AUX1", 2}, {"AUX2-5", 1}},
 	{{"AUX1", 0}, {"AUX2-5", 2}, {"AUX3", 0}}, {{"AUX1", 1}, {"AUX2-5", 0}, {"AUX3", 2}},
 	{{"AUX1", 3}}, {{"AUX1", 0}, {"AUX2-5", 3}},
+	// the session's own call registered as an auxiliary address too (kind 4: its password is the main one)
+	{{"AUX1", 0}, {"N0LOGIN", 4}}, {{"AUX1", 1}, {"N0LOGIN", 4}, {"AUX3", 0}},
 }
 
 func auxPassword(i int) string {
@@ -61,7 +64,10 @@ func auxPassword(i int) string {
 func c16Judge(c c16Case) (string, string, [16]byte) {
 	pw := c16Passwords[c.Password]
 	auxs := c16AuxCfgs[c.Aux]
-	script := &link.Script{In: []byte("[WL2K-5.0-B2FWIHJM$]\r;PQ: " + c.Challenge + "\rCMS via test >\rFQ\r")}
+	const sid = "[WL2K-5.0-B2FWIHJM$]\r"
+	pq := ";PQ: " + c.Challenge + "\r"
+	hs := map[int]string{0: sid + pq, 1: pq + sid, 2: sid + pq + sid, 3: sid + "; a comment line\r" + pq + ";FW: CMS\r"}[c.Order]
+	script := &link.Script{In: []byte(hs + "CMS via test >\rFQ\r")}
 	st := sess.Station{Call: "N0LOGIN", Locator: "JO39EQ", Configure: func(s *fbb.Session) {
 		for _, a := range auxs {
 			s.AddAuxiliaryAddress(fbb.AddressFromString(a.Addr))
@@ -150,6 +156,9 @@ func c16Judge(c c16Case) (string, string, [16]byte) {
 		} else if a.Kind == 3 {
 			r, _ := secure.Response(c.Challenge, " ")
 			wantFW += " " + a.Addr + "|" + r
+		} else if a.Kind == 4 {
+			r, _ := secure.Response(c.Challenge, pw)
+			wantFW += " " + a.Addr + "|" + r
 		} else {
 			wantFW += " " + a.Addr
 		}
@@ -227,6 +236,13 @@ func C16(args []string) {
 	core.ParallelFor(len(challenges), func(i int) {
 		for p := range c16Passwords {
 			judge(c16Case{Challenge: challenges[i], Password: p})
+		}
+		// line order of the remote's handshake
+		if i%7 == 0 || i >= nDec {
+			for ord := 1; ord <= 3; ord++ {
+				judge(c16Case{Challenge: challenges[i], Password: i % len(c16Passwords), Order: ord})
+				judge(c16Case{Challenge: challenges[i], Password: i % len(c16Passwords), Aux: 4, Order: ord})
+			}
 		}
 		// aux and callback dimensions on a fixed sub-lattice of the challenges plus all special ones
 		if i%50 == 0 || i >= nDec {
